@@ -19,9 +19,18 @@ class Loader:
         self.run = run
         self.cache = {}
 
-    def __call__(self, config):
+    def __call__(self, config, optional=False):
+        """optional=True: a configuration other than the one the test suite builds (no_std) that no longer compiles is
+        skipped with a note instead of aborting the check — the property is then decided on the std build only"""
         if config not in self.cache:
-            self.cache[config] = factsmod.Facts(config)
+            try:
+                self.cache[config] = factsmod.Facts(config)
+            except factsmod.ExtractionError as e:
+                if not optional:
+                    raise
+                self.run.note('configuration %s does not compile on this tree and was skipped: %s' % (config, str(e).strip().splitlines()[-1][:200]))
+                self.cache[config] = None
+                return None
             if config not in self.run.configs:
                 self.run.configs.append(config)
         return self.cache[config]
